@@ -83,6 +83,7 @@ structure Good (cfg : Cfg) (now : Nat) (e : Sess) : Prop where
   no_timeout : cfg.timeout = 0 → e.timer = .nil
   creating : e.creating = true → 1 ≤ e.posts
   idle : e.idleSince ≤ now
+  closeErr : e.closeErr = true → e.removed = true ∧ cfg.eventStore = true
 
 theorem Good.mono {cfg : Cfg} {now now' : Nat} {e : Sess} (h : Good cfg now e) (hn : now ≤ now') :
     Good cfg now' e :=
@@ -91,14 +92,17 @@ theorem Good.mono {cfg : Cfg} {now now' : Nat} {e : Sess} (h : Good cfg now e) (
 theorem good_newSess (s : State) (u : User) (k : Kind) : Good s.cfg s.now (newSess s u k) := by
   constructor <;> simp [newSess]
 
+theorem good_failedSess (s : State) (u : User) : Good s.cfg s.now (failedSess s u) := by
+  constructor <;> simp [failedSess]
+
 /-- Changes that leave timer, counters, publication and creation state alone keep `Good` on an entry
 that is not removed and not waiting for publication. -/
 theorem good_frame {cfg : Cfg} {now : Nat} {e e' : Sess} (h : Good cfg now e) (hr : e'.removed = false)
     (hp : e'.pending = none) (hp0 : e.pending = none)
     (h1 : e'.timer = e.timer) (h2 : e'.refs = e.refs) (h3 : e'.posts = e.posts)
     (h4 : e'.creating = e.creating) (h5 : e'.idleSince = e.idleSince) (h6 : e'.inMap = e.inMap)
-    (h7 : e.removed = false) : Good cfg now e' := by
-  obtain ⟨g1, g2, g3, g4, g5, g6, g7, g8⟩ := h
+    (h7 : e.removed = false) (h8 : e'.closeErr = e.closeErr) : Good cfg now e' := by
+  obtain ⟨g1, g2, g3, g4, g5, g6, g7, g8, g9⟩ := h
   constructor
   · rw [h1, h2, h3]; exact g1
   · intro d hd; rw [h1] at hd; rw [h2, h5]; exact g2 d hd
@@ -111,6 +115,7 @@ theorem good_frame {cfg : Cfg} {now : Nat} {e e' : Sess} (h : Good cfg now e) (h
   · intro hx; rw [h1]; exact g6 hx
   · intro hx; rw [h4] at hx; rw [h3]; exact g7 hx
   · rw [h5]; exact g8
+  · intro hx; rw [h8] at hx; have := (g9 hx).1; rw [h7] at this; cases this
 
 /-- An entry that is in the map is neither removed nor waiting for publication. -/
 theorem good_inMap {cfg : Cfg} {now : Nat} {e : Sess} (h : Good cfg now e) (hm : e.inMap = true) :
@@ -126,7 +131,7 @@ theorem good_inMap {cfg : Cfg} {now : Nat} {e : Sess} (h : Good cfg now e) (hm :
 theorem good_startTimer {cfg : Cfg} {now : Nat} {e : Sess} (h : Good cfg now e) (hm : e.inMap = true) :
     Good cfg now (startTimer e) := by
   have ⟨hr, hp⟩ := good_inMap h hm
-  obtain ⟨g1, g2, g3, g4, g5, g6, g7, g8⟩ := h
+  obtain ⟨g1, g2, g3, g4, g5, g6, g7, g8, g9⟩ := h
   cases ht : e.timer with
   | nil =>
     simp only [startTimer, ht]
@@ -141,39 +146,45 @@ theorem good_startTimer {cfg : Cfg} {now : Nat} {e : Sess} (h : Good cfg now e) 
     simp only [startTimer, ht]
     constructor <;> simp_all
 
-theorem deliver_fields (k : Kind) (e : Sess) :
-    (deliver k e).removed = e.removed ∧ (deliver k e).timer = e.timer ∧ (deliver k e).refs = e.refs ∧
-    (deliver k e).posts = e.posts ∧ (deliver k e).creating = e.creating ∧
-    (deliver k e).idleSince = e.idleSince ∧ (deliver k e).id = e.id ∧ (deliver k e).owner = e.owner ∧
-    (deliver k e).closing = e.closing ∧ (deliver k e).inMap = e.inMap ∧ (deliver k e).pending = e.pending := by
+theorem deliver_fields (ok : Bool) (k : Kind) (e : Sess) :
+    (deliver ok k e).removed = e.removed ∧ (deliver ok k e).timer = e.timer ∧ (deliver ok k e).refs = e.refs ∧
+    (deliver ok k e).posts = e.posts ∧ (deliver ok k e).creating = e.creating ∧
+    (deliver ok k e).idleSince = e.idleSince ∧ (deliver ok k e).id = e.id ∧ (deliver ok k e).owner = e.owner ∧
+    (deliver ok k e).closing = e.closing ∧ (deliver ok k e).inMap = e.inMap ∧ (deliver ok k e).pending = e.pending ∧
+    (deliver ok k e).closeErr = e.closeErr := by
   unfold deliver
   split
   · simp
   · cases k <;> simp
 
+/-- Nothing is handed to a session whose close has begun. -/
+theorem deliver_closing (ok : Bool) (k : Kind) {e : Sess} (h : e.closing = true) : deliver ok k e = e := by
+  simp [deliver, h]
+
 theorem startTimer_fields (e : Sess) :
     (startTimer e).removed = e.removed ∧ (startTimer e).id = e.id ∧ (startTimer e).owner = e.owner ∧
     (startTimer e).closing = e.closing ∧ (startTimer e).posts = e.posts + 1 ∧
-    (startTimer e).inMap = e.inMap ∧ (startTimer e).pending = e.pending := by
+    (startTimer e).inMap = e.inMap ∧ (startTimer e).pending = e.pending ∧
+    (startTimer e).busy = e.busy ∧ (startTimer e).initBusy = e.initBusy := by
   unfold startTimer
   split <;> simp
 
-theorem good_deliver {cfg : Cfg} {now : Nat} {e : Sess} (k : Kind) (h : Good cfg now e)
-    (hm : e.inMap = true) : Good cfg now (deliver k e) := by
+theorem good_deliver {cfg : Cfg} {now : Nat} {e : Sess} (ok : Bool) (k : Kind) (h : Good cfg now e)
+    (hm : e.inMap = true) : Good cfg now (deliver ok k e) := by
   have ⟨hr, hp⟩ := good_inMap h hm
-  have hf := deliver_fields k e
-  exact good_frame h (by rw [hf.1, hr]) (by rw [hf.2.2.2.2.2.2.2.2.2.2, hp]) hp hf.2.1 hf.2.2.1 hf.2.2.2.1
-    hf.2.2.2.2.1 hf.2.2.2.2.2.1 hf.2.2.2.2.2.2.2.2.2.1 hr
+  have hf := deliver_fields ok k e
+  exact good_frame h (by rw [hf.1, hr]) (by rw [hf.2.2.2.2.2.2.2.2.2.2.1, hp]) hp hf.2.1 hf.2.2.1 hf.2.2.2.1
+    hf.2.2.2.2.1 hf.2.2.2.2.2.1 hf.2.2.2.2.2.2.2.2.2.1 hr hf.2.2.2.2.2.2.2.2.2.2.2
 
-theorem good_startPost {cfg : Cfg} {now : Nat} {e : Sess} (k : Kind) (h : Good cfg now e)
-    (hm : e.inMap = true) : Good cfg now (startPost k e) := by
+theorem good_startPost {cfg : Cfg} {now : Nat} {e : Sess} (ok : Bool) (k : Kind) (h : Good cfg now e)
+    (hm : e.inMap = true) : Good cfg now (startPost ok k e) := by
   have h1 := good_startTimer h hm
   have hs := startTimer_fields e
-  show Good cfg now (deliver k (startTimer e))
-  exact good_deliver k h1 (by rw [hs.2.2.2.2.2.1, hm])
+  show Good cfg now (deliver ok k (startTimer e))
+  exact good_deliver ok k h1 (by rw [hs.2.2.2.2.2.1, hm])
 
-theorem good_publish {cfg : Cfg} {now : Nat} {e e' : Sess} (h : Good cfg now e)
-    (he : publishF true cfg.timeout e = some e') : Good cfg now e' := by
+theorem good_publish {cfg : Cfg} {now : Nat} {e e' : Sess} {ok : Bool} (h : Good cfg now e)
+    (he : publishF true cfg.timeout ok e = some e') : Good cfg now e' := by
   unfold publishF at he
   split at he
   · cases he
@@ -184,23 +195,23 @@ theorem good_publish {cfg : Cfg} {now : Nat} {e e' : Sess} (h : Good cfg now e)
     · simp only [hr, Bool.and_self, if_true] at he
       cases he
       have hrm := h.removed hr
-      obtain ⟨g1, g2, g3, g4, g5, g6, g7, g8⟩ := h
+      obtain ⟨g1, g2, g3, g4, g5, g6, g7, g8, g9⟩ := h
       constructor <;> simp_all
     · have hr : e.removed = false := by simpa using hr
       simp only [hr, Bool.and_false] at he
       simp at he
       subst he
       have base : Good cfg now (publishedSess cfg.timeout e) := by
-        obtain ⟨g1, g2, g3, g4, g5, g6, g7, g8⟩ := h
+        obtain ⟨g1, g2, g3, g4, g5, g6, g7, g8, g9⟩ := h
         unfold publishedSess
         by_cases hz : cfg.timeout = 0
         · constructor <;> simp_all
         · constructor <;> simp_all
-      exact good_deliver k base (by simp [publishedSess])
+      exact good_deliver ok k base (by simp [publishedSess])
 
 theorem good_endPost {cfg : Cfg} {now : Nat} {e e' : Sess} (creator : Bool) (h : Good cfg now e)
     (he : endPost now cfg.timeout creator e = some e') : Good cfg now e' := by
-  obtain ⟨g1, g2, g3, g4, g5, g6, g7, g8⟩ := h
+  obtain ⟨g1, g2, g3, g4, g5, g6, g7, g8, g9⟩ := h
   unfold endPost at he
   split at he
   · cases he
@@ -258,17 +269,17 @@ theorem good_handlerDone {cfg : Cfg} {now : Nat} {e e' : Sess} (b : Bool) (h : G
     · rename_i hb
       cases he
       have hp := hpn (Or.inr hb)
-      exact good_frame h hr hp hp rfl rfl rfl rfl rfl rfl hr
+      exact good_frame h hr hp hp rfl rfl rfl rfl rfl rfl hr rfl
   · split at he
     · cases he
     · rename_i hb
       cases he
       have hp := hpn (Or.inl hb)
-      exact good_frame h hr hp hp rfl rfl rfl rfl rfl rfl hr
+      exact good_frame h hr hp hp rfl rfl rfl rfl rfl rfl hr rfl
 
 theorem good_timerFire {cfg : Cfg} {now : Nat} {e e' : Sess} (h : Good cfg now e)
     (he : timerFireF now e = some e') : Good cfg now e' := by
-  obtain ⟨g1, g2, g3, g4, g5, g6, g7, g8⟩ := h
+  obtain ⟨g1, g2, g3, g4, g5, g6, g7, g8, g9⟩ := h
   unfold timerFireF at he
   split at he
   · cases he
@@ -283,16 +294,16 @@ theorem good_timerFire {cfg : Cfg} {now : Nat} {e e' : Sess} (h : Good cfg now e
 
 theorem good_close {cfg : Cfg} {now : Nat} {e e' : Sess} (h : Good cfg now e)
     (he : closeF e = some e') : Good cfg now e' := by
-  obtain ⟨g1, g2, g3, g4, g5, g6, g7, g8⟩ := h
+  obtain ⟨g1, g2, g3, g4, g5, g6, g7, g8, g9⟩ := h
   unfold closeF at he
   split at he
   · cases he
   · cases he
     constructor <;> simp_all
 
-theorem good_closeDone {cfg : Cfg} {now : Nat} {e e' : Sess} (h : Good cfg now e)
-    (he : closeDoneF e = some e') : Good cfg now e' := by
-  obtain ⟨g1, g2, g3, g4, g5, g6, g7, g8⟩ := h
+theorem good_closeDone {cfg : Cfg} {now : Nat} {e e' : Sess} {err : Bool} (h : Good cfg now e)
+    (herr : err = true → cfg.eventStore = true) (he : closeDoneF err e = some e') : Good cfg now e' := by
+  obtain ⟨g1, g2, g3, g4, g5, g6, g7, g8, g9⟩ := h
   unfold closeDoneF at he
   split at he
   · cases he
@@ -304,13 +315,13 @@ theorem good_closeDone {cfg : Cfg} {now : Nat} {e e' : Sess} (h : Good cfg now e
 
 /-- How a single entry can move in one label. -/
 inductive Move (s : State) : Sess → Sess → Prop where
-  | start (e : Sess) (k : Kind) (u : User) : lookup s.tbl e.id u = .ok e → Move s e (startPost k e)
+  | start (e : Sess) (ok : Bool) (k : Kind) (u : User) : lookup s.tbl e.id u = .ok e → Move s e (startPost ok k e)
   | hdone (e e' : Sess) (b : Bool) : handlerDoneF b e = some e' → Move s e e'
   | pend (e e' : Sess) (c : Bool) : endPost s.now s.cfg.timeout c e = some e' → Move s e e'
-  | publish (e e' : Sess) : publishF s.cfg.publishChecks s.cfg.timeout e = some e' → Move s e e'
+  | publish (e e' : Sess) (ok : Bool) : publishF s.cfg.publishChecks s.cfg.timeout ok e = some e' → Move s e e'
   | fire (e e' : Sess) : timerFireF s.now e = some e' → Move s e e'
   | close (e e' : Sess) : closeF e = some e' → Move s e e'
-  | cdone (e e' : Sess) : closeDoneF e = some e' → Move s e e'
+  | cdone (e e' : Sess) : closeDoneF s.closeFails e = some e' → Move s e e'
 
 theorem lookup_ok {t : List Sess} {i : Nat} {u : User} {e : Sess} (h : lookup t i u = .ok e) :
     findSess i t = some e ∧ e.inMap = true ∧ (e.owner = none ∨ e.owner = u) := by
@@ -332,11 +343,14 @@ theorem lookup_ok {t : List Sess} {i : Nat} {u : User} {e : Sess} (h : lookup t 
           exact ⟨hf, by simpa using hr, Or.inr (by rw [ho, hu])⟩
         · cases h
 
-/-- The three shapes of a step: table untouched, a session created, one entry moved. -/
+/-- The three shapes of a step: table untouched, an id minted (a session created, or — when the
+event store refuses `Connect` — an id that never names a session), one entry moved. -/
 theorem step_cases {s s' : State} {l : Label} {r : Resp} (h : step s l = some (s', r)) :
     s'.cfg = s.cfg ∧ s.now ≤ s'.now ∧
     ((s'.tbl = s.tbl ∧ s'.next = s.next) ∨
-     (∃ u k, l = .postBegin none u k ∧ s.cfg.stateless = false ∧ s'.tbl = s.tbl ++ [newSess s u k] ∧
+     (∃ u k e0, l = .postBegin none u k ∧ s.cfg.stateless = false ∧ s'.tbl = s.tbl ++ [e0] ∧
+        ((e0 = newSess s u k ∧ s.connectFails = false ∧ r = .tau) ∨
+         (e0 = failedSess s u ∧ s.connectFails = true ∧ r = .reject stConnectFailed)) ∧
         s'.next = s.next + 1 ∧ s'.now = s.now) ∨
      (∃ pre e post e', s.tbl = pre ++ e :: post ∧ s'.tbl = pre ++ e' :: post ∧
         (∀ x ∈ pre, x.id ≠ e.id) ∧ Move s e e' ∧ s'.next = s.next ∧ s'.now = s.now ∧
@@ -345,7 +359,7 @@ theorem step_cases {s s' : State} {l : Label} {r : Resp} (h : step s l = some (s
   split at h
   · -- stateless
     cases l <;> simp only [stepStateless] at h
-    case postBegin => cases h; simp
+    case postBegin => split at h <;> (cases h; simp)
     case postEnd sid c =>
       cases sid <;> simp only [] at h
       · split at h
@@ -356,6 +370,7 @@ theorem step_cases {s s' : State} {l : Label} {r : Resp} (h : step s l = some (s
     case delete => cases h; simp
     case other => cases h; simp
     case tick => cases h; simp
+    case faults => cases h; simp
     all_goals cases h
   · rename_i hst
     have hst : s.cfg.stateless = false := by simpa using hst
@@ -369,8 +384,14 @@ theorem step_cases {s s' : State} {l : Label} {r : Resp} (h : step s l = some (s
     cases l <;> simp only [stepStateful] at h
     case postBegin sid u k =>
       cases sid <;> simp only [] at h
-      · cases h
-        exact ⟨rfl, Nat.le_refl _, Or.inr (Or.inl ⟨u, k, rfl, hst, rfl, rfl, rfl⟩)⟩
+      · split at h
+        · rename_i hcf
+          cases h
+          exact ⟨rfl, Nat.le_refl _, Or.inr (Or.inl ⟨u, k, _, rfl, hst, rfl, Or.inr ⟨rfl, hcf, rfl⟩, rfl, rfl⟩)⟩
+        · rename_i hcf
+          cases h
+          exact ⟨rfl, Nat.le_refl _, Or.inr (Or.inl ⟨u, k, _, rfl, hst, rfl,
+            Or.inl ⟨rfl, by simpa using hcf, rfl⟩, rfl, rfl⟩)⟩
       · rename_i i
         split at h
         · cases h; simp
@@ -385,7 +406,7 @@ theorem step_cases {s s' : State} {l : Label} {r : Resp} (h : step s l = some (s
               rw [this.1] at hf; cases hf
               cases he'
               have hid := (findSess_some this.1).2
-              exact Move.start e k u (by rw [hid]; exact hl))
+              exact Move.start e _ k u (by rw [hid]; exact hl))
             exact ⟨rfl, Nat.le_refl _, Or.inr (Or.inr ⟨pre, e1, post, e', h1, h2, h3, h4, rfl, rfl, hst⟩)⟩
     case handlerDone i b =>
       split at h
@@ -406,7 +427,9 @@ theorem step_cases {s s' : State} {l : Label} {r : Resp} (h : step s l = some (s
     case get sid u =>
       cases sid <;> simp only [] at h
       · cases h; simp
-      · split at h <;> (cases h; simp)
+      · split at h
+        · cases h; simp
+        · split at h <;> (cases h; simp)
     case delete sid u =>
       cases sid <;> simp only [] at h
       · cases h; simp
@@ -420,13 +443,20 @@ theorem step_cases {s s' : State} {l : Label} {r : Resp} (h : step s l = some (s
             exact ⟨rfl, Nat.le_refl _, Or.inr (Or.inr ⟨pre, e1, post, e', h1, h2, h3, h4, rfl, rfl, hst⟩)⟩
     case publish i =>
       split at h
-      · rename_i e t hf hm
-        cases h
-        obtain ⟨pre, e1, post, e', h1, h2, h3, h4⟩ := mv hm (fun e e' _ he' => Move.publish e e' he')
-        exact ⟨rfl, Nat.le_refl _, Or.inr (Or.inr ⟨pre, e1, post, e', h1, h2, h3, h4, rfl, rfl, hst⟩)⟩
+      · rename_i e hf
+        split at h
+        · rename_i k hk
+          split at h
+          · rename_i t hm
+            cases h
+            obtain ⟨pre, e1, post, e', h1, h2, h3, h4⟩ := mv hm (fun e e' _ he' => Move.publish e e' _ he')
+            exact ⟨rfl, Nat.le_refl _, Or.inr (Or.inr ⟨pre, e1, post, e', h1, h2, h3, h4, rfl, rfl, hst⟩)⟩
+          · cases h
+        · cases h
       · cases h
     case other => cases h; simp
     case tick d => cases h; simp
+    case faults f => cases h; simp
     case timerFire i =>
       split at h
       · cases h
@@ -468,14 +498,14 @@ theorem move_fields {s : State} {e e' : Sess} (h : Move s e e') :
     e'.id = e.id ∧ e'.owner = e.owner ∧ (e.removed = true → e'.removed = true) ∧
     (e.closing = true → e'.closing = true) := by
   match h with
-  | .start _ k u hl =>
-    have hd := deliver_fields k (startTimer e)
+  | .start _ ok k u hl =>
+    have hd := deliver_fields ok k (startTimer e)
     have hs := startTimer_fields e
     refine ⟨?_, ?_, ?_, ?_⟩
-    · show (deliver k (startTimer e)).id = e.id; rw [hd.2.2.2.2.2.2.1, hs.2.1]
-    · show (deliver k (startTimer e)).owner = e.owner; rw [hd.2.2.2.2.2.2.2.1, hs.2.2.1]
-    · show e.removed = true → (deliver k (startTimer e)).removed = true; rw [hd.1, hs.1]; exact id
-    · show e.closing = true → (deliver k (startTimer e)).closing = true; rw [hd.2.2.2.2.2.2.2.2.1, hs.2.2.2.1]; exact id
+    · show (deliver ok k (startTimer e)).id = e.id; rw [hd.2.2.2.2.2.2.1, hs.2.1]
+    · show (deliver ok k (startTimer e)).owner = e.owner; rw [hd.2.2.2.2.2.2.2.1, hs.2.2.1]
+    · show e.removed = true → (deliver ok k (startTimer e)).removed = true; rw [hd.1, hs.1]; exact id
+    · show e.closing = true → (deliver ok k (startTimer e)).closing = true; rw [hd.2.2.2.2.2.2.2.2.1, hs.2.2.2.1]; exact id
   | .hdone _ _ b he =>
     unfold handlerDoneF at he
     split at he
@@ -484,7 +514,7 @@ theorem move_fields {s : State} {e e' : Sess} (h : Move s e e') :
   | .pend _ _ c he =>
     have := endPost_fields he
     exact ⟨this.1, this.2.1, by rw [this.2.2.1]; exact id, this.2.2.2.1⟩
-  | .publish _ _ he =>
+  | .publish _ _ ok he =>
     unfold publishF at he
     split at he
     · cases he
@@ -492,7 +522,7 @@ theorem move_fields {s : State} {e e' : Sess} (h : Move s e e') :
       split at he
       · cases he; simp
       · cases he
-        have hd := deliver_fields k (publishedSess s.cfg.timeout e)
+        have hd := deliver_fields ok k (publishedSess s.cfg.timeout e)
         refine ⟨?_, ?_, ?_, ?_⟩
         · rw [hd.2.2.2.2.2.2.1]; rfl
         · rw [hd.2.2.2.2.2.2.2.1]; rfl
@@ -512,16 +542,76 @@ theorem move_fields {s : State} {e e' : Sess} (h : Move s e e') :
     unfold closeDoneF at he
     split at he <;> cases he; simp_all
 
+/-- A session whose close has begun and that has no handler in flight. -/
+def Quiet (e : Sess) : Prop := e.closing = true ∧ e.busy = 0 ∧ e.initBusy = 0
+
+theorem endPost_busy {now timeout : Nat} {c : Bool} {e e' : Sess} (h : endPost now timeout c e = some e') :
+    e'.busy = e.busy ∧ e'.initBusy = e.initBusy := by
+  unfold endPost at h
+  split at h
+  · cases h
+  split at h
+  · cases h
+  split at h
+  · cases h
+  by_cases hz : e.refs - 1 = 0 <;> cases ht : e.timer <;> simp only [ht, hz] at h <;> cases c <;>
+    simp at h <;> subst h <;> simp_all
+
+/-- No label can hand a message to a closing session or reopen it: `Quiet` is kept by every move. -/
+theorem move_quiet {s : State} {e e' : Sess} (h : Move s e e') (hq : Quiet e) : Quiet e' := by
+  obtain ⟨hc, hb, hib⟩ := hq
+  match h with
+  | .start _ ok k u hl =>
+    have hs := startTimer_fields e
+    have hc' : (startTimer e).closing = true := by rw [hs.2.2.2.1]; exact hc
+    show Quiet (deliver ok k (startTimer e))
+    rw [deliver_closing ok k hc']
+    exact ⟨hc', by rw [hs.2.2.2.2.2.2.2.1]; exact hb, by rw [hs.2.2.2.2.2.2.2.2]; exact hib⟩
+  | .hdone _ _ b he =>
+    simp [handlerDoneF, hb, hib] at he
+  | .pend _ _ c he =>
+    have h1 := endPost_fields he
+    have h2 := endPost_busy he
+    exact ⟨h1.2.2.2.1 hc, by rw [h2.1]; exact hb, by rw [h2.2]; exact hib⟩
+  | .publish _ _ ok he =>
+    unfold publishF at he
+    split at he
+    · cases he
+    · rename_i k _
+      split at he
+      · cases he; exact ⟨hc, hb, hib⟩
+      · cases he
+        have hc' : (publishedSess s.cfg.timeout e).closing = true := hc
+        rw [deliver_closing ok k hc']
+        exact ⟨hc, hb, hib⟩
+  | .fire _ _ he =>
+    unfold timerFireF at he
+    split at he
+    · cases he
+    · split at he
+      · split at he <;> cases he
+        exact ⟨rfl, hb, hib⟩
+      · cases he
+  | .close _ _ he =>
+    unfold closeF at he
+    split at he <;> cases he
+    exact ⟨rfl, hb, hib⟩
+  | .cdone _ _ he =>
+    unfold closeDoneF at he
+    split at he <;> cases he
+    exact ⟨hc, hb, hib⟩
+
 theorem move_good {s : State} {e e' : Sess} (hfix : s.cfg.publishChecks = true)
     (hg : Good s.cfg s.now e) (h : Move s e e') : Good s.cfg s.now e' := by
   match h with
-  | .publish _ _ he => rw [hfix] at he; exact good_publish hg he
-  | .start _ k u hl => exact good_startPost k hg (lookup_ok hl).2.1
+  | .publish _ _ ok he => rw [hfix] at he; exact good_publish hg he
+  | .start _ ok k u hl => exact good_startPost ok k hg (lookup_ok hl).2.1
   | .hdone _ _ b he => exact good_handlerDone b hg he
   | .pend _ _ c he => exact good_endPost c hg he
   | .fire _ _ he => exact good_timerFire hg he
   | .close _ _ he => exact good_close hg he
-  | .cdone _ _ he => exact good_closeDone hg he
+  | .cdone _ _ he =>
+    exact good_closeDone hg (by intro hx; simp [State.closeFails] at hx; exact hx.1) he
 
 /-! ### the global invariant -/
 
@@ -537,16 +627,20 @@ theorem inv_init (cfg : Cfg) (hfix : cfg.publishChecks = true) : Inv (init cfg) 
 theorem step_inv {s s' : State} {l : Label} {r : Resp} (hi : Inv s) (h : step s l = some (s', r)) :
     Inv s' := by
   obtain ⟨hc, hn, hcase⟩ := step_cases h
-  rcases hcase with ⟨ht, hx⟩ | ⟨u, k, _, hst, ht, hx, hnow⟩ | ⟨pre, e, post, e', h1, h2, h3, hm, hx, hnow, hst⟩
+  rcases hcase with ⟨ht, hx⟩ | ⟨u, k, e0, _, hst, ht, he0, hx, hnow⟩ | ⟨pre, e, post, e', h1, h2, h3, hm, hx, hnow, hst⟩
   · exact ⟨by rw [hc]; exact hi.fixed, by rw [ht, hx]; exact hi.ids,
       by rw [ht, hc]; exact fun e he => (hi.good e he).mono hn, by rw [ht, hc]; exact hi.stateless⟩
   · refine ⟨by rw [hc]; exact hi.fixed, ?_, ?_, ?_⟩
-    · rw [ht, hx, List.map_append, hi.ids, List.range_succ]; simp [newSess]
+    · rw [ht, hx, List.map_append, hi.ids, List.range_succ]
+      rcases he0 with ⟨h0, _⟩ | ⟨h0, _⟩ <;> simp [h0, newSess, failedSess]
     · rw [ht, hc, hnow]
       intro e he
       rcases List.mem_append.mp he with he | he
       · exact hi.good e he
-      · simp at he; subst he; exact good_newSess s u k
+      · simp at he; subst he
+        rcases he0 with ⟨h0, _⟩ | ⟨h0, _⟩
+        · rw [h0]; exact good_newSess s u k
+        · rw [h0]; exact good_failedSess s u
     · rw [hc, hst]; intro hx; cases hx
   · have hf := move_fields hm
     refine ⟨by rw [hc]; exact hi.fixed, ?_, ?_, ?_⟩
